@@ -162,6 +162,33 @@ Proof.
   rewrite Z.add_0_r, (wrap64_small s) by (unfold two63; lia).
   rewrite wrap64_small by (unfold two63; lia). unfold two64. rewrite Z.mod_small by lia. reflexivity.
 Qed.
+(* one instant, every way of making a Date of it: the same eight bytes *)
+Lemma date_entry_points_agree ms rest : 0 <= ms < two63 ->
+  let d := be_encode 8 (Z.to_N ms) in
+  new_date_from_millis ms = Ok d /\
+  date_from_time (ms / 1000) (ms mod 1000 * 1000000) = d /\
+  (ms mod 1000 = 0 -> new_date_from_unix (ms / 1000) = Ok d) /\
+  read_date (d ++ rest) = Ok (d, rest) /\
+  date_int d = ms.
+Proof.
+  intros H d.
+  assert (M : date_of_millis ms = d).
+  { unfold date_of_millis, to_u64, d. unfold two63, two64 in *. rewrite Z.mod_small by lia. reflexivity. }
+  assert (U : unix_milli (ms / 1000) (ms mod 1000 * 1000000) = ms).
+  { pose proof (unix_milli_of_millis ms H) as Q. rewrite Z.quot_div_nonneg, Z.rem_mod_nonneg in Q by lia. exact Q. }
+  split; [|split; [|split; [|split]]].
+  - unfold new_date_from_millis. replace (ms <? 0) with false by lia.
+    unfold date_from_time. rewrite unix_milli_of_millis by exact H. rewrite M. reflexivity.
+  - unfold date_from_time. rewrite U. exact M.
+  - intros Z0. rewrite date_unix_exact by (unfold two63 in *; lia).
+    unfold d. replace (ms / 1000 * 1000) with ms by lia. reflexivity.
+  - unfold read_date. apply take_app. unfold d. apply be_encode_length.
+  - destruct (date_millis_roundtrip ms H) as (d' & E & _ & I & _).
+    assert (E' : new_date_from_millis ms = Ok d).
+    { unfold new_date_from_millis. replace (ms <? 0) with false by lia.
+      unfold date_from_time. rewrite unix_milli_of_millis by exact H. rewrite M. reflexivity. }
+    rewrite E in E'. inversion E'. subst d'. exact I.
+Qed.
 Lemma read_date_short b : (length b < 8)%nat -> read_date b = Err.
 Proof. intros H. unfold read_date. apply take_err. exact H. Qed.
 Lemma read_date_frame b d r : read_date b = Ok (d, r) -> b = d ++ r /\ length d = 8%nat.
